@@ -272,8 +272,15 @@ def r5_scan_page_depends_on_offset(ctx):
             continue      # a constant index (the first-proof call)
         n += 1
         k = "%s|proof#%d" % (f.root, n)
-        if from_offset(sl):
-            r.ok(k, cfg.loc(body, i), "the index is computed from the offset (data flow)", work=len(sl.nodes))
+        # data flow is asked for the FIRST proof of the page: only definitions that reach the
+        # call without taking a loop back edge count (`res.offset` updated at the end of the
+        # loop body is still its initial value when the first index is computed)
+        pre = {x for x in live if x == i or i in cfg.reach(body, [x])}                     # can reach the call
+        first = cfg.reach(body, [0], cut_blocks=[i]) | {i, 0}                              # reached before the call
+        fg1 = FlowGraph(ws, f, only_blocks={body.path: pre & first})
+        sl1 = fg1.back_from_operand(body, t["args"][-1])
+        if (sl1.has_var(body, "offset") or bool(sl1.reads_field("offset", "ScanRequest"))):
+            r.ok(k, cfg.loc(body, i), "the index of the first proof of a page is computed from the request offset (data flow)", work=len(sl1.nodes))
             continue
         defs = cfg.defs_of(body)
         def_blocks = {bi for l in idx_locals for (bi, _st, _t) in defs.get(l, [])}
